@@ -2283,14 +2283,17 @@ def part_put_limit(ctx, tmp, only=None):
     configs = list(LIMIT_CONFIGS_QUICK) + (LIMIT_CONFIGS_MORE if ctx.tier == 'thorough' else [])
     if only is not None:
         configs = [tuple(only[:3])]
+    # the sweep children (one per geometry) are independent: the plans are drawn first, in order, then the children run
+    # side by side; the comparisons below go through them in the original order
+    use_strace = shutil.which('strace') is not None
+    prepared = []
     for ci, (direct, dt, shape) in enumerate(configs):
         shape = tuple(shape)
         d = '%s/lim%d' % (tmp, ci)
         os.makedirs(d + '/a', exist_ok=True)
-        new, old = make_chunk(dt, shape, 2), make_chunk(dt, shape, 1)
+        new = make_chunk(dt, shape, 2)
         hdr, body = npy_header_and_body(new)
-        new_bytes, hlen = bytes(hdr) + body.tobytes(), len(bytes(hdr))
-        S = len(new_bytes)
+        S, hlen = len(bytes(hdr)) + body.nbytes, len(bytes(hdr))
         base = os.path.join(d, 'a', '_'.join('%05d' % 0 for _ in shape))
         tmpn, finaln, sep = base + '.writing.npy', base + '.npy', d + '/sep'
         open(sep, 'wb').close()
@@ -2298,13 +2301,29 @@ def part_put_limit(ctx, tmp, only=None):
             plan = [[None, 0], [only[3], 1 if only[4] else 0]]
         else:
             plan = [[None, 0]] + limit_plan(ctx, direct, S, hlen, every=(S <= 200 or (ctx.tier == 'thorough' and S <= 2500 and not direct)))
-        trace = d + '/trace.txt'
         cmd = [sys.executable, CHILD, d, '1' if direct else '0', dt, ','.join(str(x) for x in shape), '2']
-        use_strace = shutil.which('strace') is not None
         if use_strace:
-            cmd = ['strace', '-f'] + strace_fast() + ['-o', trace, '-e', 'trace=' + SYSCALLS, '-P', tmpn, '-P', finaln, '-P', sep] + cmd
-        r = subprocess.run(cmd, input=json.dumps(dict(limits=plan, sep=sep)), capture_output=True, text=True,
-                           env=dict(child_env(), C08_MODE='limits'), timeout=600)
+            cmd = ['strace', '-f'] + strace_fast() + ['-o', d + '/trace.txt', '-e', 'trace=' + SYSCALLS, '-P', tmpn, '-P', finaln, '-P', sep] + cmd
+        prepared.append((plan, cmd, sep))
+
+    def sweep(j):
+        plan, cmd, sep = prepared[j]
+        return subprocess.run(cmd, input=json.dumps(dict(limits=plan, sep=sep)), capture_output=True, text=True,
+                              env=dict(child_env(), C08_MODE='limits'), timeout=600)
+    with concurrent.futures.ThreadPoolExecutor(max_workers=4) as pool:
+        swept = list(pool.map(sweep, range(len(prepared))))
+    for ci, (direct, dt, shape) in enumerate(configs):
+        shape = tuple(shape)
+        d = '%s/lim%d' % (tmp, ci)
+        new, old = make_chunk(dt, shape, 2), make_chunk(dt, shape, 1)
+        hdr, body = npy_header_and_body(new)
+        new_bytes, hlen = bytes(hdr) + body.tobytes(), len(bytes(hdr))
+        S = len(new_bytes)
+        base = os.path.join(d, 'a', '_'.join('%05d' % 0 for _ in shape))
+        tmpn, finaln, sep = base + '.writing.npy', base + '.npy', d + '/sep'
+        plan = prepared[ci][0]
+        trace = d + '/trace.txt'
+        r = swept[ci]
         obs = [json.loads(l[6:]) for l in r.stdout.splitlines() if l.startswith('LIMIT ')]
         after = [json.loads(l[6:]) for l in r.stdout.splitlines() if l.startswith('AFTER ')]
         cfg = dict(part='put_limit', direct_write=direct, dtype=dt, shape=list(shape))
